@@ -628,7 +628,7 @@ func main() {
 		mand = append(mand, "alg:"+string(a))
 	}
 	run.Mandatory(mand...)
-	n := run.N(1500, 40000)
+	n := run.N(5000, 60000)
 	if rc := run.ReplayCase(); rc >= 0 {
 		runCase(run, int(rc), 0)
 		runCase(run, int(rc), 1)
